@@ -1018,6 +1018,13 @@ class Prov:
                 return [(bool(v[1]), env)]
             if isinstance(v, Temp):
                 return [(True, env)]        # a node object is truthy (lists and parameters may be empty/false)
+            # an unknown flag (e.g. a parameter): both ways, but the same way every time it is tested
+            k = ('assume', test.id)
+            if k in env.attrs:
+                return [(env.attrs[k], env)]
+            et, ef = env.copy(), env.copy()
+            et.attrs[k], ef.attrs[k] = True, False
+            return [(True, et), (False, ef)]
         target = None
         if isinstance(test, ast.Call) and isinstance(test.func, ast.Attribute) and test.func.attr in SIMPLE_PREDICATES and isinstance(test.func.value, ast.Name):
             target = test.func.value.id
@@ -1089,6 +1096,7 @@ class Prov:
     def assign(self, t, v, env):
         if isinstance(t, ast.Name):
             env.vars[t.id] = v
+            env.attrs.pop(('assume', t.id), None)
         elif isinstance(t, (ast.Tuple, ast.List)):
             n = len(t.elts)
             if isinstance(v, ListV) and len(v.items) == n and not any(isinstance(i, RunItem) for i in v.items):
@@ -1282,7 +1290,7 @@ def _mark_simple(env, paths):
         else:
             env.vars[k] = _strip(v, paths)
     for k, v in list(env.attrs.items()):
-        if not isinstance(v, (int, ListV)):
+        if not isinstance(v, (int, bool, ListV)):
             env.attrs[k] = _strip(v, paths)
 
 
